@@ -19,7 +19,9 @@ Record case := mk_case {
   o_flits : list N;             (* per message: flits that left the source endpoint *)
   o_paths : list (list N);      (* per message: switches visited (index; coordinate code for mesh) *)
   o_uniform : bool;             (* every flit of a message took the same path *)
-  c_par : list N; c_lab : list N; c_unlab : list N }.
+  c_par : list N; c_lab : list N; c_unlab : list N;
+  c_width1 : bool;              (* every switch port has one lane (NumInputChannel = NumOutputChannel = 1) *)
+  o_fifo : bool }.              (* through every switch, flits going from one input port to one output port left in arrival order *)
   (* kind 1 (PCIe): the tree the calls describe — parent of every tree node (switches in creation
      order, then devices), and the translation between the connector's node list and the tree *)
 
@@ -85,7 +87,9 @@ Definition tree_ok (c : case) : bool :=
   else true.
 
 Definition check_case (c : case) : bool :=
-  o_uniform c && check_msgs c (c_msgs c) (o_flits c) (o_paths c) && tree_ok c.
+  o_uniform c && check_msgs c (c_msgs c) (o_flits c) (o_paths c) && tree_ok c &&
+  (* the one-FIFO-per-buffer-series abstraction (ProofsChain): order is kept through one-lane switches *)
+  (negb (c_width1 c) || o_fifo c).
 
 (** the property: the device-port trace is accepted and the run was closed *)
 Definition ends_with_end (tr : list event) : bool :=
